@@ -570,7 +570,9 @@ def run(pid, tier):
                      {"theorem": ck.obl["file"]}, found_input=False)
     rng = random.Random(ck.seed * 733 + 41)
     n = 300 if tier == "quick" else 4000
-    docs = [e["schema"] for e in json_corpus(pid) if isinstance(e["schema"], bool) or J.metaschema_ok(e["schema"])]
+    # the examples of the listed findings first (each is reported as KNOWN-FINDING as long as it still fails), then the corpus
+    docs = [k["example"] for k in ck.kf.get("known", []) if k.get("property") == pid and isinstance(k.get("example"), dict)]
+    docs += [e["schema"] for e in json_corpus(pid) if isinstance(e["schema"], bool) or J.metaschema_ok(e["schema"])]
     n += len(docs)
     while len(docs) < n:
         m = rng.random()
